@@ -282,13 +282,14 @@ def lackOfCapacity (o : Output) : Option Bool :=
     | none => none
     | some occ => some (decide (occ > o.capacity))
 
-def checkOutputs : Nat → List Output → CapV
+/-- the output loop over the per-output results: first overflow / lack of capacity decides -/
+def checkLacks : Nat → List (Option Bool) → CapV
   | _, [] => .ok
-  | i, o :: rest =>
-    match lackOfCapacity o with
-    | none => .overflow
-    | some true => .insufficient i
-    | some false => checkOutputs (i + 1) rest
+  | _, none :: _ => .overflow
+  | i, some true :: _ => .insufficient i
+  | i, some false :: rest => checkLacks (i + 1) rest
+
+def checkOutputs (i : Nat) (outs : List Output) : CapV := checkLacks i (outs.map lackOfCapacity)
 
 /-- `CapacityVerifier::verify`; `exempt` = `resolved_inputs.is_empty()` (cellbase) or some input uses the DAO type script -/
 def capacityVerify (exempt : Bool) (inputCaps : List Nat) (outputs : List Output) : CapV :=
